@@ -191,7 +191,7 @@ def main(argv=None):
     ev = {'property_id': prop, 'tier': tier, 'seed': seed, 'level': level, 'coverage': coverage,
           'assumptions': list(getattr(mod, 'ASSUMPTIONS', [])), 'wall_s': wall, 'violations': len(unknown),
           'verdict': 'violated' if unknown else ('inconclusive' if inconcl else 'held')}
-    if not a.replay:
+    if not a.replay and not os.environ.get('VERIF_NO_EVIDENCE'):
         os.makedirs(os.path.join(ROOT, 'evidence'), exist_ok=True)
         tmp = os.path.join(ROOT, 'evidence', f'.{prop}.json.tmp')
         with open(tmp, 'w') as f:
